@@ -339,7 +339,13 @@ def solve(acc, sp, subj_kw, label):
     if ok:
         acc.count("model_plans")
         for d in plan:
-            i = idx[(d["kind"], d["name"], d["target"])]
+            i = idx.get((d["kind"], d["name"], d["target"]))
+            if i is None:
+                # the environment does not offer an action of the scenario:
+                # left to the closure over what it does offer
+                acc.count("plan_action_not_offered_by_environment")
+                terminated = False
+                break
             seed = forced_seed(d["prob"])
             if seed is None:
                 acc.count("skipped:no_seed_for_tiny_probability")
